@@ -45,6 +45,9 @@ type sim struct {
 	tried        map[string]string // (receiver,item) -> receiver state stamp at last delivery
 	armed        map[int]simcore.Op
 	targetH      int64
+	idleSteps    int
+	idleNext     int
+	refused      map[int]map[int64]bool
 
 	mon *monitor
 }
@@ -356,7 +359,7 @@ func (s *sim) deliverables() []item {
 				continue
 			}
 			rb := rss[b.idx]
-			st := stamp(rb)
+			st := fmt.Sprintf("%d:%s", b.inc, stamp(rb))
 			add := func(it item) {
 				if s.tried[it.key()] == st {
 					return
@@ -456,7 +459,7 @@ func (s *sim) deliver(it item) bool {
 	if rb.Height != it.h {
 		return false
 	}
-	s.tried[it.key()] = stamp(rb)
+	s.tried[it.key()] = fmt.Sprintf("%d:%s", b.inc, stamp(rb))
 	switch it.kind {
 	case "proposal":
 		if ra.Height != it.h || ra.Round != it.r || ra.Proposal == nil {
@@ -536,6 +539,12 @@ func (n *simNode) committedHeight() int64 {
 
 func (s *sim) Next(rng *simcore.RNG) simcore.Op {
 	if s.opsLeft <= 0 {
+		if s.cfg.Bool("gst") && !s.gst {
+			return simcore.Op{"a": "gst"}
+		}
+		if s.gst {
+			s.env.Count("probe.gst_budget_exhausted")
+		}
 		return nil
 	}
 	s.opsLeft--
@@ -635,6 +644,9 @@ func (s *sim) Apply(op simcore.Op) bool {
 	ok := s.apply(op)
 	if ok {
 		s.mon.afterStep()
+		if s.gst {
+			s.checkTermination(op.Bool("idle"))
+		}
 	}
 	return ok
 }
